@@ -141,6 +141,19 @@ def _try_join(options):
             elif issubclass(result_type, BitVector) and issubclass(
                 option_type, BitVector
             ):
+                def kind(vec_type):
+                    if issubclass(vec_type, Signed):
+                        return Signed
+                    if issubclass(vec_type, Unsigned):
+                        return Unsigned
+                    return BitVector
+
+                if kind(result_type) is not kind(option_type):
+                    # branches of different kinds (BitVector/Unsigned/Signed) are not joined,
+                    # a common type would hide the signedness of one branch from the
+                    # checks of the assignment that uses the result
+                    return None
+
                 r_signed = isinstance(result_type, Signed)
                 r_unsigned = isinstance(result_type, Unsigned)
 
